@@ -43,8 +43,9 @@ Theorem C04_no_check_sound : forall d s, wf_ity d -> wf_ity s ->
 Proof. exact no_check_sound. Qed.
 Print Assumptions C04_no_check_sound.
 
-(* every implicit conversion site of the code generator is checked (call argument, declaration,
-   assignment, single and multiple return with or without pending defer, array / record /
+(* every implicit conversion site of the code generator is checked (call argument, declaration
+   incl. static and from a multiple-return call, single and multiple assignment, unpacking of a
+   multiple-return call, single and multiple return with or without pending defer, array / record /
    record-array initializer lists, numeric for bounds): only the explicit cast is not *)
 Theorem C04_all_sites_checked : forall st, site_implicit st = true -> site_checked st = true.
 Proof. exact sites_all_checked. Qed.
